@@ -267,9 +267,10 @@ func (r *relay) processFrame(f http2.Frame) error {
 		err = r.processor(f.StreamID).RSTStream(f.ErrCode)
 	case *http2.SettingsFrame:
 		if f.IsAck() {
-			r.destMu.Lock()
-			err = r.dest.WriteSettingsAck()
-			r.destMu.Unlock()
+			// The acknowledgement goes through the ordered output, behind the frames this relay has
+			// already released toward the endpoint that is waiting for it: they were cut to the
+			// settings it is about to see acknowledged.
+			r.enqueueFrame(&queuedSettingsAckFrame{})
 		} else {
 			var settings []http2.Setting
 			if err = f.ForeachSetting(func(s http2.Setting) error {
